@@ -1,0 +1,19 @@
+//go:build verif
+
+package iana
+
+// Contracts for the deductive verification in /verif (build tag "verif"). This file adds declarations only.
+
+//@ define archPos(buf, data) = off(buf.Buffer.data) - off(data)
+
+// RFC 4578 / 5970 architecture list: one or more 16-bit big-endian values
+//@ contract (*Archs).FromBytes
+//@   let a0 = string(data)
+//@   modifies a
+//@   ensures[accept] (err == nil) == (len(data) > 0 && len(data)%2 == 0)
+//@   ensures[count] err == nil ==> len(*a) == len(data)/2 && fresh(*a)
+//@   ensures[values] err == nil ==> (forall k int :: {(*a)[k]} 0 <= k && k < len(*a) ==> int((*a)[k]) == int(a0[2*k])*256 + int(a0[2*k+1]))
+//@   loop 0 invariant[pos] ref(buf.Buffer.data) == ref(data) && archPos(buf, data) >= 0 && archPos(buf, data) <= len(data) && len(buf.Buffer.data) == len(data) - archPos(buf, data) && buf.err == nil && archPos(buf, data)%2 == 0
+//@   loop 0 invariant[list] fresh(*a) && allocated(*a) && len(*a) == archPos(buf, data)/2 && ref(*a) != ref(buf) && ref(*a) != ref(buf.Buffer) && ref(a) != ref(*a) && ref(a) != ref(buf) && ref(a) != ref(buf.Buffer)
+//@   loop 0 invariant[values] forall k int :: {(*a)[k]} 0 <= k && k < len(*a) ==> int((*a)[k]) == int(a0[2*k])*256 + int(a0[2*k+1])
+//@   loop 0 invariant[input] string(data) == a0
